@@ -179,6 +179,12 @@ class Ctx:
         self.known = {e["id"]: e for e in load_known() if e["property"] == prop}
         self.scratch = Path(tempfile.mkdtemp(prefix=f"verif_{prop}_"))
         atexit.register(shutil.rmtree, str(self.scratch), True)
+        # every temporary directory of this run (this process, forked pool workers, child interpreters) lives under
+        # the scratch directory, so whatever a killed worker leaves behind goes away with it
+        tmp = self.scratch / "tmp"
+        tmp.mkdir(exist_ok=True)
+        os.environ["TMPDIR"] = str(tmp)
+        tempfile.tempdir = str(tmp)
 
     @property
     def thorough(self):
